@@ -349,6 +349,12 @@ fn run_inner(dev: Dev, p: &Program, o: &ExecOpts, res: &mut RunResult, cur: &mut
     res.finalized = true;
 }
 
+/// reference model: namespace names an extension prefix can be bound to (not empty, not the E57
+/// namespace itself, not the two names reserved by "Namespaces in XML")
+pub fn ext_url_ok(u: &str) -> bool {
+    !u.is_empty() && u != m::E57_NS && u != "http://www.w3.org/XML/1998/namespace" && u != "http://www.w3.org/2000/xmlns/"
+}
+
 /// The scene the program describes (the harness's own record). Bounds are computed by
 /// `expected_bounds` separately (C14); here they are left None.
 pub fn expected_scene(p: &Program) -> m::Scene {
@@ -364,7 +370,7 @@ pub fn expected_scene(p: &Program) -> m::Scene {
             Op::ExtTry(pf, u) => {
                 // reference model: a namespace prefix can be registered once, and only with a
                 // non-empty URL
-                if !u.is_empty() && !s.extensions.iter().any(|(p, _)| p == pf) {
+                if ext_url_ok(u) && !s.extensions.iter().any(|(p, _)| p == pf) {
                     s.extensions.push((pf.clone(), u.clone()));
                 }
             }
